@@ -103,6 +103,10 @@ def run(ctx, chk):
             chk.ob("S-raw", "Seq::into_raw", ok, "into_raw = %s, expected as_raw_slice(self.bv)" % (show(r[0].ret) if r else "?"), b["span"])
         # ---- I-head ----
         seqctor.check(chk, cfg, "I-head")
+    import core as _core
+    for cfg in ctx.configs():
+        chk.cfg = cfg.name
+        _core.import_codec_core(chk, cfg)      # the symbols' own tables (C05)
 
 
 def check_from_raw(chk, cfg, b):
